@@ -1,6 +1,7 @@
 package props
 
 import (
+	"encoding/json"
 	"fmt"
 	"strings"
 	"time"
@@ -91,6 +92,11 @@ func runC04(e *core.Env) error {
 				table = "shared"
 			}
 			fields := core.Pick(rr, [][]string{{"block_time"}, {"block_time", "log_addr"}, {"block_time", "tx_input"}, {"block_time", "tx_status"}})
+			if !sharedTable && rr.Chance(1, 6) {
+				// trace-indexing: blocks + trace_block; two of these on one caching client re-attach traces
+				igs = append(igs, traceIG(fmt.Sprintf("ig%d", i+1), table))
+				continue
+			}
 			if !sharedTable && rr.Chance(2, 5) {
 				// a different event of the same transactions: another eth_getLogs filter on the same cached blocks
 				igs = append(igs, approvalIG(fmt.Sprintf("ig%d", i+1), table, fields, nil))
@@ -585,7 +591,20 @@ func runC06(e *core.Env) error {
 				return err
 			}
 			batch := 1 + rr.Intn(6)
-			t, err := w.addTask("t1", root.Integrations[0], "src1", g.start, g.stop, batch, 1+rr.Intn(3))
+			// the range reaches the task the way it does in production: through the JSON form of the
+			// integration's source reference
+			var srcRef config.Source
+			doc := fmt.Sprintf(`{"name": "src1", "start": %d, "stop": %d}`, g.start, g.stop)
+			if g.stop == 0 && rr.Bool() {
+				doc = fmt.Sprintf(`{"name": "src1", "start": %d}`, g.start)
+			}
+			if err := json.Unmarshal([]byte(doc), &srcRef); err != nil || srcRef.Name != "src1" {
+				e.Add(core.Case{Impl: fmt.Sprintf("source reference %s not decoded: %v", doc, err), Spec: "decoded", Key: "c06-json " + doc})
+				w.close()
+				continue
+			}
+			e.Add(core.Case{Impl: fmt.Sprintf("%d %d", srcRef.Start, srcRef.Stop), Spec: fmt.Sprintf("%d %d", g.start, g.stop), Key: "c06-json " + doc, Nontrivial: true, Tags: []string{"range-from-json"}})
+			t, err := w.addTask("t1", root.Integrations[0], "src1", srcRef.Start, srcRef.Stop, batch, 1+rr.Intn(3))
 			if err != nil {
 				w.close()
 				return err
@@ -668,6 +687,51 @@ func runC06(e *core.Env) error {
 				Tags: []string{fmt.Sprintf("start=%d", g.start), fmt.Sprintf("stop=%d", g.stop), fmt.Sprintf("prior=%v", prior), fmt.Sprintf("done=%v", reached), fmt.Sprintf("dependent=%v", dependent)}})
 			w.close()
 		}
+	}
+	// ---- a bounded task next to an unbounded one on ONE caching client, at the same position, with the
+	// stop inside the other's batch; the unbounded one asks first (whatever the cache hands out, the
+	// bounded task must not write past its stop)
+	for rep := 0; rep < e.N(4, 24) && !e.OverBudget(); rep++ {
+		rr := r.Fork()
+		chain := transferChain(24+rr.Intn(6), uint64(1+rr.Intn(1000)))
+		w, err := newWorld(e, chain)
+		if err != nil {
+			return err
+		}
+		w.client = jrpc2.New(w.node.URL()).WithMaxReads(3 + rr.Intn(3)).WithPollDuration(time.Hour)
+		fields := core.Pick(rr, [][]string{{"block_time"}, {"block_time", "tx_input"}})
+		root := config.Root{Integrations: []config.Integration{transferIG("live", "t1", fields, nil), transferIG("bounded", "t2", fields, nil)}}
+		if err := w.setupRoot(&root); err != nil {
+			w.close()
+			return err
+		}
+		batch := 6 + rr.Intn(5)
+		stop := uint64(2 + rr.Intn(batch-2)) // strictly inside the first batch [1, batch]
+		live, err1 := w.addTask("live", root.Integrations[0], "src1", 1, 0, batch, 1)
+		bnd, err2 := w.addTask("bounded", root.Integrations[1], "src1", 1, stop, batch, 1)
+		if err1 != nil || err2 != nil {
+			w.close()
+			return fmt.Errorf("c06 pair: %v %v", err1, err2)
+		}
+		var oracles []string
+		order := []*wTask{live, bnd}
+		if rep%3 == 2 {
+			order = []*wTask{bnd, live}
+		}
+		for round := 0; round < 4 && !w.dead; round++ {
+			for _, t := range order {
+				w.step(t, noFault)
+				oracles = append(oracles, w.withinOracle(bnd, 0))
+			}
+		}
+		verdict := "ok"
+		if _, top, has, _ := w.taskRows(bnd); has && top > stop {
+			verdict = fmt.Sprintf("bounded task recorded position %d beyond its stop %d", top, stop)
+		}
+		e.Add(core.Case{Impl: verdict, Spec: "ok", Key: fmt.Sprintf("c06-pair-o %d", rep), Nontrivial: true, Tags: []string{"bounded-next-to-unbounded-oracle"}})
+		op, impl := w.caseOp()
+		e.Add(core.Case{Op: op, Impl: impl, Oracles: oracles, Nontrivial: true, Key: fmt.Sprintf("c06-pair %d %d", rep, e.Seed), Tags: []string{"bounded-next-to-unbounded"}})
+		w.close()
 	}
 	return nil
 }
